@@ -1,63 +1,76 @@
 ----------------------------- MODULE Lifecycle -----------------------------
 (***************************************************************************)
-(* Life-cycle of a message object (C14): mutable while it is being         *)
-(* constructed, frozen from the moment the constructor returns - for       *)
-(* messages with a definition, for stubs, whatever the attribute name.     *)
-(* A failed construction never yields an object.                           *)
+(* Life-cycle of message objects (C14): an object is mutable while IT is    *)
+(* being constructed, frozen from the moment ITS constructor returns - for  *)
+(* messages with a definition, for stubs, whatever the attribute name, and  *)
+(* whatever OTHER objects are doing (several objects, e.g. one per thread,  *)
+(* are constructed and attacked in every interleaving).  A failed           *)
+(* construction never yields an object.                                     *)
 (*                                                                         *)
-(*   phase     "none" | "building" | "frozen" | "failed"                   *)
-(*   names     set of attribute names the object holds                     *)
-(*   vals      name -> value                                               *)
-(*   last      outcome of the last client operation                        *)
+(*   phase[o]  "none" | "building" | "frozen" | "failed"                   *)
+(*   names[o]  set of attribute names the object holds                     *)
+(*   vals[o]   name -> value                                               *)
+(*   last[o]   outcome of the last client operation on o                   *)
 (***************************************************************************)
 EXTENDS Integers, FiniteSets, TLC
 
 CONSTANTS Names,      \* universe of attribute names (public, derived, private, fresh)
-          Values      \* universe of values
+          Values,     \* universe of values
+          Objs        \* object identities
 
 VARIABLES phase, names, vals, last
 lvars == <<phase, names, vals, last>>
 
-Init == phase = "none" /\ names = {} /\ vals = << >> /\ last = "none"
+Init == /\ phase = [o \in Objs |-> "none"] /\ names = [o \in Objs |-> {}]
+        /\ vals = [o \in Objs |-> << >>] /\ last = [o \in Objs |-> "none"]
 
-\* constructor entered: private bookkeeping attributes are set first
-BeginConstruct == /\ phase = "none"
-                  /\ phase' = "building" /\ names' = {} /\ vals' = << >> /\ last' = "none"
+\* constructor entered
+BeginConstruct(o) == /\ phase[o] = "none"
+                     /\ phase' = [phase EXCEPT ![o] = "building"]
+                     /\ UNCHANGED <<names, vals, last>>
 
 \* decode step: the constructor itself may assign any attribute (Decode.tla says which)
-BuildSet(n, v) == /\ phase = "building"
-                  /\ names' = names \cup {n}
-                  /\ vals' = (n :> v) @@ vals
-                  /\ UNCHANGED <<phase, last>>
+BuildSet(o, n, v) == /\ phase[o] = "building"
+                     /\ names' = [names EXCEPT ![o] = @ \cup {n}]
+                     /\ vals' = [vals EXCEPT ![o] = (n :> v) @@ @]
+                     /\ UNCHANGED <<phase, last>>
 
 \* constructor returns (normal definition OR stub path): frozen from now on
-Freeze == /\ phase = "building" /\ phase' = "frozen" /\ last' = "constructed"
-          /\ UNCHANGED <<names, vals>>
+Freeze(o) == /\ phase[o] = "building"
+             /\ phase' = [phase EXCEPT ![o] = "frozen"] /\ last' = [last EXCEPT ![o] = "constructed"]
+             /\ UNCHANGED <<names, vals>>
 
 \* decode failed: library error, no object escapes
-FailConstruct == /\ phase = "building" /\ phase' = "failed" /\ last' = "raise:library"
-                 /\ UNCHANGED <<names, vals>>
+FailConstruct(o) == /\ phase[o] = "building"
+                    /\ phase' = [phase EXCEPT ![o] = "failed"] /\ last' = [last EXCEPT ![o] = "raise:library"]
+                    /\ UNCHANGED <<names, vals>>
 
-\* ANY assignment by a client, for EVERY name (existing, derived, private, new):
+\* ANY assignment by a client, for EVERY name (existing, derived, private, new), at ANY time
+\* after o's own construction - also while another object is under construction:
 \* refused with the library's message error, nothing changes
-SetAttr(n, v) == /\ phase = "frozen"
-                 /\ last' = "raise:RTCMMessageError"
-                 /\ UNCHANGED <<phase, names, vals>>
+SetAttr(o, n, v) == /\ phase[o] = "frozen"
+                    /\ last' = [last EXCEPT ![o] = "raise:RTCMMessageError"]
+                    /\ UNCHANGED <<phase, names, vals>>
 
 \* reads never change anything
-Read(n) == /\ phase = "frozen" /\ last' = (IF n \in names THEN "value" ELSE "raise:AttributeError")
-           /\ UNCHANGED <<phase, names, vals>>
+Read(o, n) == /\ phase[o] = "frozen"
+              /\ last' = [last EXCEPT ![o] = IF n \in names[o] THEN "value" ELSE "raise:AttributeError"]
+              /\ UNCHANGED <<phase, names, vals>>
 
-Next == BeginConstruct \/ Freeze \/ FailConstruct
-        \/ \E n \in Names, v \in Values : BuildSet(n, v) \/ SetAttr(n, v)
-        \/ \E rn \in Names : Read(rn)
+Next == \E o \in Objs :
+          \/ BeginConstruct(o) \/ Freeze(o) \/ FailConstruct(o)
+          \/ \E n \in Names, v \in Values : BuildSet(o, n, v) \/ SetAttr(o, n, v)
+          \/ \E rn \in Names : Read(o, rn)
 Spec == Init /\ [][Next]_lvars
 
-\* C14 as an action property: once frozen, the object never changes
-Frozen == [][phase = "frozen" => (names' = names /\ vals' = vals /\ phase' = "frozen")]_lvars
+\* C14 as an action property: once frozen, an object never changes - whatever the others do
+Frozen == [][\A o \in Objs : phase[o] = "frozen" =>
+               (names'[o] = names[o] /\ vals'[o] = vals[o] /\ phase'[o] = "frozen")]_lvars
 \* an assignment attempt is always answered by the message error
-AssignRefused == [][(phase = "frozen" /\ last' \notin {"value", "raise:AttributeError"} /\ last' # last)
-                      => last' = "raise:RTCMMessageError"]_lvars
-NoObjectOnFailure == phase = "failed" => last = "raise:library"
-TypeOK == phase \in {"none", "building", "frozen", "failed"} /\ names \subseteq Names
+AssignRefused == [][\A o \in Objs : (phase[o] = "frozen" /\ last'[o] \notin {"value", "raise:AttributeError"} /\ last'[o] # last[o])
+                      => last'[o] = "raise:RTCMMessageError"]_lvars
+\* the window that matters for a per-process (instead of per-object) freeze flag is reachable
+AttackWhileOtherBuilds == \E o1, o2 \in Objs : o1 # o2 /\ phase[o1] = "frozen" /\ phase[o2] = "building"
+NoObjectOnFailure == \A o \in Objs : phase[o] = "failed" => last[o] = "raise:library"
+TypeOK == \A o \in Objs : phase[o] \in {"none", "building", "frozen", "failed"} /\ names[o] \subseteq Names
 =============================================================================
